@@ -255,7 +255,7 @@ func newC02Worker(tier string) *c02Worker {
 	// stale-index store: F2 with vertex a relabelled P->Q and vertex c deleted
 	{
 		db, gi := fx[2].LoadMem()
-		gmodel.ApplyDB(db, gmodel.Op{Kind: "AddVertex", G: "g", Elems: []gmodel.Elem{{ID: "a", Label: "Q", Data: map[string]any{"n": 1.0, "s": "x"}}}})
+		gmodel.ApplyDB(db, gmodel.Op{Kind: "AddVertex", G: "g", Elems: []gmodel.Elem{{ID: "a", Label: "PQ", Data: map[string]any{"n": 1.0, "s": "x"}}}})
 		gmodel.ApplyDB(db, gmodel.Op{Kind: "DelVertex", G: "g", ID: "c"})
 		w.targets = append(w.targets, c02Target{"kvgraph/F2-after-relabel-and-delete", gi}, c02Target{"noload/F2-after-relabel-and-delete", noLoad{gi}})
 	}
